@@ -4,6 +4,7 @@
 // construction (constrain()), never by filtering.
 #include "../engine/pbt.hpp"
 #include "../engine/gen.hpp"
+#include "../engine/guard.hpp"
 #include "goldilocks_base_field.hpp"
 
 using pbt::Case; using pbt::Ctx;
@@ -203,8 +204,11 @@ static bool body_mat(const Case &c, Ctx &ctx)
     // coefficient array; exact-size heap block; aligned variants get a 64-byte aligned block, unaligned ones a deliberately misaligned one
     bool want_aligned = (k->kind == M_SPMV_A || k->kind == M_DOT_A || k->kind == M_MM4_A || k->kind == M_MM_A);
     size_t nb = (size_t)k->ncoef * 8;
-    char *block = (char *)aligned_alloc(64, ((nb + 8 + 63) / 64) * 64);
-    E *co = (E *)(want_aligned ? block : block + 8);
+    // the array ends exactly at a guard page (sizes are multiples of 32 bytes, so it is 32-byte aligned); unaligned variants
+    // alternate between that placement and a deliberately misaligned one (8 bytes before the guard)
+    bool misalign = !want_aligned && (c.v[0] & 1);
+    guard::Buf gb(nb, misalign ? 8 : 0);
+    E *co = gb.as<E>();
     const uint64_t *pc = &c.v[12 * S];
     for (int i = 0; i < k->ncoef; i++) co[i].fe = k->eight ? (pc[i] & 0xFF) : pc[i];
     // expected
@@ -222,7 +226,7 @@ static bool body_mat(const Case &c, Ctx &ctx)
             }
         }
         if (maxnc >= 2) ctx.nt("mat:>=2-noncanonical-products-in-a-lane"); else if (maxnc == 1) ctx.nt("mat:1-noncanonical-product"); else if (nc_state) ctx.nt("mat:noncanonical-state"); else ctx.cls("mat:all-canonical");
-        if (want_aligned) ctx.cls("mat:aligned-variant"); else ctx.cls("mat:misaligned-array");
+        if (want_aligned) ctx.cls("mat:aligned-variant"); else ctx.cls(misalign ? "mat:misaligned-array" : "mat:array-ends-at-guard-page");
     }
     bool ok = true; std::string why;
     auto cmp = [&](const char *what, int s, int idx, uint64_t got, uint64_t want) {
@@ -280,7 +284,6 @@ static bool body_mat(const Case &c, Ctx &ctx)
         }
     }
 #endif
-    free(block);
     if (!ok) return ctx.fail(why);
     return true;
 }
